@@ -100,8 +100,9 @@ def check_c13(tier, seed):
     return poller_table(ck, prog, mir_wall, tier, seed)
 
 
-def poller_table(ck, prog, mir_wall, tier, seed, only_phc=False):
-    """the message table of one poller iteration (C13); with only_phc: just the clauses about the PHC term of the messages (C07)"""
+def poller_table(ck, prog, mir_wall, tier, seed, only_phc=False, only_kind=False):
+    """the message table of one poller iteration (C13); with only_phc: just the clauses about the PHC term of the messages (C07);
+    with only_kind: just the message-kind clause (C10: every report chronyd gives reaches the classifier, whatever its content)"""
     pm = PollerModel(prog)
     S = pm.run()
     M = pm.msg
@@ -145,6 +146,9 @@ def poller_table(ck, prog, mir_wall, tier, seed, only_phc=False):
         cfg_id, t_id, phc_val = mval(m, pm.cfg_refid), mval(m, pm.t_refid), mval(m, pm.phc_val)
         strat = mval(m, pm.t_stratum)
         strat_arg = '' if strat in (None, 1) else ' - stratum=%d' % strat
+        leap = mval(m, pm.t_leap)
+        if leap not in (None, 0):
+            strat_arg = (strat_arg or ' -') + ' leap=%d' % leap
         out = rp.ask('poller %d %s %d %d %d %s%s' % (some, '%d' % grace if gb == grace else ('10' if gb else '01'), cfg, cfg_id, t_id, ('ok:%d' % phc_val) if phc_ok else 'missing', strat_arg))
         if not out.startswith('ok'):
             return None
@@ -176,8 +180,8 @@ def poller_table(ck, prog, mir_wall, tier, seed, only_phc=False):
                 return 'message'
         if f.get('n') != '1' or not got.startswith(want):
             stats[1] += 1
-            ck.violation('poller-message', 'one iteration of the real poller loop with (chronyd answered=%s, within grace=%s%s, PHC configured=%s, configured ref id=%d, report ref id=%d, PHC read ok=%s) sent %s message(s): %s ; documented: %s'
-                         % (some, grace, '' if gb == grace else ' once the query has returned (%s before it)' % gb, cfg, cfg_id, t_id, phc_ok, f.get('n'), got, want), {'cmd': 'poller', 'native': out})
+            ck.violation('poller-message', 'one iteration of the real poller loop with (chronyd answered=%s, within grace=%s%s, PHC configured=%s, configured ref id=%d, report ref id=%d%s, PHC read ok=%s) sent %s message(s): %s ; documented: %s'
+                         % (some, grace, '' if gb == grace else ' once the query has returned (%s before it)' % gb, cfg, cfg_id, t_id, strat_arg.replace(' - ', ', report ').replace('=', ' '), phc_ok, f.get('n'), got, want), {'cmd': 'poller', 'native': out})
             return 'message'
         return None
     for g, a in alts:
@@ -192,6 +196,10 @@ def poller_table(ck, prog, mir_wall, tier, seed, only_phc=False):
         sends = [e for e in evs if e.kind == 'send']
         clocks = [e for e in evs if e.kind == 'clock_gettime']
         # exactly one message per iteration whose clock read succeeded, none otherwise
+        if only_kind:
+            if sends:
+                pr.prove_cegar(label + ': message kind is the documented one for (answer?, PHC configured?, ref ids equal?, PHC read ok?, within grace?)', pc, msg_disc(sends[0].args[1]) == exp, confirm, lambda m: [])
+            continue
         pr.prove_cegar(label + ': one send iff the clock read succeeded', pc, z3.BoolVal(len(sends) == 1) == pm.clock_ok if len(sends) <= 1 else z3.BoolVal(False), confirm, lambda m: [])
         if len(clocks) != 1:
             pr.prove(label + ': exactly one monotonic clock read per iteration', pc, z3.BoolVal(False), need_reach=False)
@@ -214,9 +222,13 @@ def poller_table(ck, prog, mir_wall, tier, seed, only_phc=False):
     # every combination of answers is handled by some path
     allg = z3.Or([a.guard for g, a in alts])
     keepv = [v for l, (v, ty) in S.carried.items() if ty == 'bool']
-    if not only_phc:
+    if not only_phc and not only_kind:
         pr.prove('the iteration paths cover every combination of environment answers (no panic except on a broken channel)', z3.And(*( [keepv[0]] if keepv else [])), z3.Or(allg, z3.And(pm.clock_ok, z3.Not(pm.send_ok))), need_reach=False)
     rp.close()
+    if only_kind:
+        ck.absorb(pr, 'poller: ')
+        ck.cov['poller_message_kind'] = {'iteration_paths': len(alts), 'counterexamples_replayed': stats[0], 'confirmed': stats[1]}
+        return None
     if only_phc:
         ck.absorb(pr, 'poller: ')
         ck.cov['poller_phc_term'] = {'iteration_paths': len(alts), 'counterexamples_replayed': stats[0], 'confirmed': stats[1]}
@@ -425,7 +437,17 @@ def grace_part(ck, prog, pr, seed):
         msgs_ = (f.get('msgs') or '').split('|')
         if out.startswith('ok') and f.get('n') == '1' and not msgs_[0] == want_msg and not bad:
             bad.append('the PHC is chronyd\'s reference (ids match) and its error-bound attribute opens but every read fails: the real poller loop sends %s, documented: %s (the report must not be used as a measurement)' % (msgs_[0], want_msg))
-    if bad and 'error-bound attribute' in bad[0]:
+    # natively, always: during an outage the polls keep their period (the grace period is evaluated at a poll only: polls spaced out
+    # during silence delay the Unknown-class outcome beyond the 5 s the property names)
+    out = rpg.ask('pollertiming 40 640')
+    ck.cov['evaluations'] += 1
+    runs['polls during an outage (period 40 ms, 640 ms)'] = out[:160]
+    f = dict(x.split('=', 1) for x in out.split()[1:] if '=' in x) if out.startswith('ok') else {}
+    if f.get('messages') and int(f['messages']) < 8 and not bad:
+        bad.append('chronyd silent, polling period 40 ms: in 640 ms the real poller loop reported %s outcomes (16 polls fit; at least 8 expected) - the polls are spaced out while chronyd is silent, so the end of the grace period is reported late' % f['messages'])
+    if bad and 'spaced out' in bad[0]:
+        ck.violation('outage-polls-spaced-out', bad[0], {'cmd': 'pollertiming 40 640', 'native': runs})
+    elif bad and 'error-bound attribute' in bad[0]:
         ck.violation('phc-unreadable-used-as-measurement', bad[0], {'cmd': 'poller 1 0 1 7 7 dir', 'native': runs, 'all': bad})
     elif bad:
         ck.violation('grace-after-non-tracking-answer', bad[0] + ': an answer without tracking data counts as a good answer, the grace period (re)starts', {'cmd': 'gettracking', 'native': runs, 'all': bad})
@@ -460,25 +482,28 @@ def fin(ck, pm, mir_wall):
 def poller_order_half(ck, prog, seed):
     """daemon half of C12 (also an interface fact of C01): the as-of reading precedes the query to chronyd"""
     pm = PollerModel(prog)
-    S = pm.run()
-    pr = Prover(seed); pr.add(pm.ex.side)
-    # what clock_gettime returns: a well-formed timespec
-    pr.add(pm.as_s >= 0, pm.as_s < 2 ** 40, pm.as_n >= 0, pm.as_n < NS)
-    M = pm.msg
-    n = 0
     rpo = common.Replay('debug')
 
     def confirm_order(m):
         """one iteration of the real poller loop under a virtual monotonic clock that advances by 1 s on every read"""
         some, grace, cfg, phc_ok = [bool(mval(m, x)) for x in (pm.tracking_some, pm.grace, pm.phc_cfg, pm.phc_ok)]
         cfg_id, t_id, phc_val = mval(m, pm.cfg_refid), mval(m, pm.t_refid), mval(m, pm.phc_val)
+        return native_order(some, grace, cfg, phc_ok, cfg_id, t_id, phc_val)
+
+    def native_order(some, grace, cfg, phc_ok, cfg_id, t_id, phc_val):
         out = rpo.ask('poller %d %d %d %d %d %s' % (some, grace, cfg, cfg_id, t_id, ('ok:%d' % phc_val) if phc_ok else 'missing'))
         f = dict(x.split('=', 1) for x in out.split()[1:] if '=' in x) if out.startswith('ok') else {}
         bad = []
-        if some and f.get('clock_reads_before_query', '0').split(',')[0] in ('', '0'):
+        ids = [x for x in f.get('clock_ids', '').split(',') if x.strip()]
+        rb0 = f.get('clock_reads_before_query', '0').split(',')[0]
+        before = ids[:int(rb0)] if rb0.isdigit() else []
+        if some and rb0 in ('', '0'):
             bad.append('chronyd was queried before the monotonic clock was read')
-        if f and not f.get('clock_ids', '').startswith('6'):
-            bad.append('the first clock read is clock id %s, not CLOCK_MONOTONIC_COARSE (6)' % f.get('clock_ids'))
+        elif f and '6' not in (before if rb0.isdigit() and int(rb0) > 0 else ids):
+            # other clocks may be read as well (an Instant for a log line): what matters is that a reading of the clock the clients
+            # compare as-of with exists before the request goes out
+            bad.append('no reading of CLOCK_MONOTONIC_COARSE (id 6, the clock PROTOCOL.md names for the as-of timestamp) is taken before chronyd is queried: clock ids read before the query: %s; during the whole iteration: %s'
+                       % (','.join(before) or 'none', ','.join(ids) or 'none'))
         ma = re.search(r'asof=(-?\d+)\.(-?\d+)(?::q=(\d+))?', f.get('msgs', '')) if 'ClockErrorBoundData' in f.get('msgs', '') else None
         if ma:
             a_s, a_n = int(ma.group(1)), int(ma.group(2))
@@ -487,6 +512,7 @@ def poller_order_half(ck, prog, seed):
             q = int(ma.group(3)) if ma.group(3) else 1
             rbq = [int(x) for x in f.get('clock_reads_before_query', '').split(',') if x.strip().isdigit()]
             nread = rbq[q - 1] if 1 <= q <= len(rbq) else 1
+            nread = max(1, len([x for x in ids[:nread] if x == '6'])) if nread >= 1 else nread      # the virtual clock advances at reads of id 6
             limit = 123 * NS + 456 + max(0, nread - 1) * NS
             if not (0 <= a_n < NS) or a_s * NS + a_n > limit or nread < 1:
                 bad.append('the as-of instant of the message (%s) is later than the last clock reading taken before the query it answers (query #%d, issued after %d clock read(s): reading %d.%09d; the virtual clock advances 1 s per read), or malformed'
@@ -508,6 +534,21 @@ def poller_order_half(ck, prog, seed):
                              % (gr, msgs[1]), {'cmd': 'poller', 'native': out})
                 return 'stale-report'
         return None
+    try:
+        S = pm.run()
+    except EngineError:
+        # the loop is not executable symbolically on this tree: the native judge still runs on the standing combinations of answers
+        # (a violation it demonstrates is a violation; otherwise the check stays undecided)
+        for comb in ((True, True, False, False, 0, 7, 0), (True, False, True, True, 7, 7, 5000), (False, True, False, False, 0, 0, 0)):
+            if native_order(*comb):
+                break
+        rpo.close()
+        raise
+    pr = Prover(seed); pr.add(pm.ex.side)
+    # what clock_gettime returns: a well-formed timespec
+    pr.add(pm.as_s >= 0, pm.as_s < 2 ** 40, pm.as_n >= 0, pm.as_n < NS)
+    M = pm.msg
+    n = 0
     for g in S.iteration:
         for a in g.alts:
             n += 1
@@ -519,7 +560,9 @@ def poller_order_half(ck, prog, seed):
             pr.prove_cegar(label + ': the monotonic clock is read once, before chronyd is queried', a.guard, z3.BoolVal(ok_order), confirm_order, lambda m: [])
             clk = [e for e in g.events if e.kind == 'clock_gettime']
             if clk:
-                cid = z3.simplify(clk[0].args[0])
+                cid = clk[0].args[0]
+                # a constant of another crate (libc::CLOCK_...) that the executor could not evaluate is still "not provably id 6": the native run decides
+                cid = z3.simplify(cid) if z3.is_expr(cid) else (z3.IntVal(cid) if isinstance(cid, int) else z3.Int('clock_id_unresolved'))
                 pr.prove_cegar(label + ': the clock read is CLOCK_MONOTONIC_COARSE (id 6), as PROTOCOL.md says', a.guard, z3.BoolVal(z3.is_int_value(cid) and cid.as_long() == 6), confirm_order, lambda m: [], need_reach=False)
             for e in g.events:
                 if e.kind == 'send' and isinstance(e.args[1], Enum) and 'ClockErrorBoundData' in e.args[1].p:
@@ -542,7 +585,15 @@ def poller_order_half(ck, prog, seed):
 def check_c12(tier, seed):
     ck = Check('C12', tier, seed)
     prog, mir_wall = load_dlib_program()
-    pm = poller_order_half(ck, prog, seed)
+    try:
+        pm = poller_order_half(ck, prog, seed)
+    except EngineError as e:
+        if not ck.violations:
+            raise
+        # not executable symbolically, but the standing native run on the real loop showed the violation
+        ck.inconclusive.append('poller loop not executable symbolically: %s' % e)
+        ck.cov['evaluations'] = ck.cov.get('evaluations', 0) + 1
+        return ck.finish()
     client_order_half(ck, seed)
     # the as-of instant stays attached to ITS report all the way into the published record: bound and as_of of every record are those of
     # the same (latest synchronised) report - an as_of refreshed from a later, discarded answer would un-age the frozen bound
